@@ -834,6 +834,8 @@ def build(p):
   p.native('uniform_stochastic_quantize[float32]', D, 'quantizers',
            lambda m: dict(kind='usq', vec='huge', num_levels=4, seed=0, draws=2))
   p.native('uniform_stochastic_quantizer', D, 'aggregators')
+  p.native('uniform_stochastic_quantize_pytree', D, 'leafwise')
+  p.native('terngrad_quantize_pytree', D, 'leafwise')
   p.native('rotated_uniform', D, 'aggregators')
   p.native('structured_drive', D, 'aggregators')
   p.native('terngrad_quantizer', D, 'aggregators')
